@@ -22,7 +22,7 @@ def Identifier_init(uri: "str") -> "Ident":
     ensures("uri", result.uri == uri)
 
 
-@contract("prov.identifier.Identifier.__str__", props=["C03", "C06", "C10"])
+@contract("prov.identifier.Identifier.__str__", props=["C03", "C06", "C10", "C13"])
 def Identifier_str(self: "Ident") -> "str":
     pure()
     ensures("str-is-uri", result == self.uri)
@@ -47,7 +47,7 @@ def QualifiedName_init(namespace: "Ns", localpart: "str") -> "QN":
     ensures("uri", result.uri == namespace.uri + localpart)
 
 
-@contract("prov.identifier.QualifiedName.__str__", props=["C03", "C06", "C10"])
+@contract("prov.identifier.QualifiedName.__str__", props=["C03", "C06", "C10", "C13"])
 def QualifiedName_str(self: "QN") -> "str":
     pure()
     ensures("str-def", result == (self.namespace.prefix + ":" + self.localpart
